@@ -290,23 +290,42 @@ func serverRead(chunks [][]byte, limit int) ([][]byte, string, bool) {
 	return rr.msgs, end, true
 }
 
-// clientRead calls Conn.ReadMsgHeader until the stream ends.
+// clientRead calls Conn.ReadMsgHeader until the stream ends. Every returned
+// slice is kept until then (a caller is free to decode them later) and rendered
+// only after the last read.
 func clientRead(chunks [][]byte) (string, []string) {
 	co := &dns.Conn{Conn: netfake.NewConn(chunks)}
-	var out []string
+	var out, early []string
+	var held [][]byte
+	finish := func() {
+		for i, p := range held {
+			if p == nil {
+				continue
+			}
+			if out[i] = render(p); out[i] != early[i] {
+				Viol("C12/Crosstalk/client-read-retained", "several replies read from ONE connection with the earlier results still held: a result is not (or no longer) the reply it was returned for",
+					heldIn{Transport: "stream", Reader: "Conn.ReadMsgHeader", What: []string{fmt.Sprintf("the octets returned by read %d of %d rendered as %s when they were returned and as %s after the later reads on the same connection", i, len(held), early[i], out[i])}})
+			}
+		}
+	}
 	for i := 0; i < 100000; i++ {
 		p, err := co.ReadMsgHeader(nil)
 		if err == nil {
-			out = append(out, render(p))
+			out, early, held = append(out, ""), append(early, render(p)), append(held, p)
+			if p == nil {
+				out[len(out)-1] = early[len(early)-1]
+			}
 			continue
 		}
 		c := classify(err)
 		if c == "short-read" {
-			out = append(out, "err:short-read")
+			out, early, held = append(out, "err:short-read"), append(early, "err:short-read"), append(held, nil)
 			continue
 		}
+		finish()
 		return strings.Join(out, ",") + "|" + c, out
 	}
+	finish()
 	return "noend", out
 }
 
@@ -1269,6 +1288,7 @@ func runC12(r *Rng, tier string, n int) {
 	runPoison(r, tier)
 	runDecorated(r, tier)
 	runTsigPool(r, tier)
+	runStreamSeq(r, tier)
 	runMultiHomed(r, tier)
 	runSessions(r, tier)
 	runKeptWriters(r, tier)
